@@ -92,6 +92,9 @@ extern "C" void harness_main()
 #elif MODE == 3
   AsmContext *c = new AsmContext();
   uint32_t va = symx_u16("va"), vb = symx_u16("vb");
+#if T == 8
+  symx_assume(va < 0xfe00 && vb < 0xfe00);   /* label + addend stays a 16-bit value: larger sums are .dc16 range errors, not this template's subject */
+#endif
   char A[8], B[8]; sprintf(A, "%u", va); sprintf(B, "%u", vb);
   char *p = src; p = vp_append(p, ".msp430\n.org 0x100\n");
 #if T == 1   /* forward and backward references */
@@ -132,6 +135,18 @@ extern "C" void harness_main()
   symx_assert(e == 0, "accepted"); if (e) return;
   symx_assert(c->memory.read16(0x101) == 0x100 && c->memory.read16(0x104) == 0x103, "labels inside functions are local to them");
   symx_assert(c->memory.read16(0x106) == 0x100 && c->memory.read16(0x108) == 0x103, "function names are global labels at the function's address");
+#elif T == 7 /* the same local name in three consecutive scopes, forward-referenced in the second and third */
+  p = vp_append(p, ".scope\nloc: .db 1\n.ends\n.scope\n.dc16 loc\n.db 5\nloc: .db 2\n.ends\n.scope\n.dc16 loc\nloc: .db 3\n.dc16 loc\n.ends\n");
+  int e = vp_assemble(c, src);
+  symx_assert(e == 0, "accepted"); if (e) return;
+  // layout: 100 loc(s1); s2: 101 dc16 loc, 103 db 5, 104 loc; s3: 105 dc16 loc, 107 loc, 108 dc16 loc
+  symx_assert(c->memory.read16(0x101) == 0x104, "a forward local reference in a later scope resolves to that scope's definition, not an earlier scope's");
+  symx_assert(c->memory.read16(0x105) == 0x107 && c->memory.read16(0x108) == 0x107, "third scope: forward and backward references agree on its own definition");
+#elif T == 8 /* label values in expressions with a symbolic addend, forward and backward */
+  p = vp_append(p, "back: .db 1\n.dc16 back + "); p = vp_append(p, A); p = vp_append(p, "\n.dc16 fwd + "); p = vp_append(p, B); p = vp_append(p, "\nfwd: .db 2\n");
+  int e = vp_assemble(c, src);
+  symx_assert(e == 0, "accepted"); if (e) return;
+  symx_assert(c->memory.read16(0x101) == ((0x100 + va) & 0xffff) && c->memory.read16(0x103) == ((0x105 + vb) & 0xffff), "label + constant evaluates with the label's address in both directions");
 #endif
 #endif
 }
